@@ -126,6 +126,15 @@ def _replicate(job_name: str) -> None:
             _ev("replica", job_name)
 
 
+def _exc(p, default_cls, msg: str):
+    """the exception an injected failure raises: the repo's own WorkflowExecutionException by default, or — plan key `exc` — a
+    non-StreamFlow exception as a connector / plugin / OS error would surface (ConnectionResetError, OSError, ValueError, TimeoutError)"""
+    import builtins
+    name = (p or {}).get("exc")
+    cls = getattr(builtins, name) if name else default_cls
+    return cls(msg)
+
+
 def _inject(step_name: str, job, phase: str) -> bool:
     from streamflow.core.utils import get_job_tag
     tag = get_job_tag(job.name)
@@ -133,6 +142,7 @@ def _inject(step_name: str, job, phase: str) -> bool:
     if p is None:
         return False
     p["count"] = p.get("count", 1) - 1
+    STATE["last_injected"] = p
     STATE["injected"].append((job.name, phase, p["kind"]))
     if p["kind"] == "failstop":
         _lose(p, job)
@@ -164,6 +174,10 @@ def _classes():
                     reg[d] = [bool(ctx_.data_manager.get_data_locations(d, loc.deployment, loc.name)), os.path.isdir(d)]
             STATE["avail"].append((job.name, reg))
             if _inject(step_name, job, "execute"):
+                if STATE["last_injected"].get("exc"):
+                    # the command itself raises (e.g. the connection to the location is reset), nothing is recorded
+                    _ev("fail", job.name)
+                    raise _exc(STATE["last_injected"], WorkflowExecutionException, f"Injected {STATE['last_injected']['exc']} into {step_name}")
                 context = self.step.workflow.context
                 cmd_out = CommandOutput("Injected failure", Status.FAILED)
                 job_token = get_job_token(job.name, self.step.get_job_port().token_list)
@@ -187,6 +201,7 @@ def _classes():
                     with open(path, "w") as fh:
                         fh.write(f"{text}|field{k}")
                     value[f"f{k}"] = {"class": "File", "path": path, "basename": f"rec-f{k}"}
+                value["threshold"] = 7          # a mixed record: a non-file field that always survives
                 out = CommandOutput(value, Status.COMPLETED)
                 context = self.step.workflow.context
                 job_token = get_job_token(job.name, self.step.get_job_port().token_list)
@@ -203,7 +218,7 @@ def _classes():
             step_name = self.job_prefix
             if _inject(step_name, job, "schedule"):
                 _ev("fail", job.name)
-                raise WorkflowExecutionException(f"Injected error into {self.name} step")
+                raise _exc(STATE["last_injected"], WorkflowExecutionException, f"Injected error into {self.name} step")
             await _gates(job.name, 1 + sum(1 for n, _ in STATE["dirs"] if n == job.name), "schedule")
             await ScheduleStep._set_job_directories(self, connector, locations, job)
             STATE["dirs"].append((job.name, [job.input_directory, job.output_directory, job.tmp_directory]))
@@ -214,7 +229,7 @@ def _classes():
             top = any(token is t for t in job.inputs.values())
             if top and _inject(step_name, job, "transfer"):
                 _ev("fail", job.name)
-                raise WorkflowExecutionException(f"Injected error into {self.name} step")
+                raise _exc(STATE["last_injected"], WorkflowExecutionException, f"Injected error into {self.name} step")
             out = await super().transfer(job, token)
             if top:
                 done = STATE["ports_done"].setdefault(job.name, set())
